@@ -13,20 +13,45 @@ KANI_TARGET = os.path.join(CACHE, "kani-target")
 def _env():
     env = dict(os.environ)
     env["CARGO_NET_OFFLINE"] = "true"
+    # CBMC memory cap via a PATH shim (lib/shim/cbmc)
+    shim = os.path.join(os.path.dirname(os.path.abspath(__file__)), "shim")
+    if shim not in env.get("PATH", "").split(":"):
+        env["PATH"] = shim + ":" + env.get("PATH", "")
     env.pop("RUSTFLAGS", None)
     env.pop("RUSTUP_TOOLCHAIN", None)
     return env
 
 
+def clean_crate_artifacts(target_dir=None):
+    """Every scratch copy has its own path, hence its own package id and its own build/ and deps/
+    artifacts for the crate itself; dependencies are shared. Remove the crate's artifacts of
+    earlier runs so the cache does not grow without bound (the caller holds the global lock)."""
+    import glob
+    import shutil
+    td = target_dir or KANI_TARGET
+    for pat in ("kani/*/debug/build/brc20-prog/*", "kani/*/debug/deps/*brc20_prog-*", "kani/*/debug/deps/brc20_prog-*",
+                "kani/*/debug/.fingerprint/brc20-prog-*", "kani/*/debug/incremental/brc20_prog-*"):
+        for p in glob.glob(os.path.join(td, pat)):
+            if os.path.isdir(p):
+                shutil.rmtree(p, ignore_errors=True)
+            else:
+                try:
+                    os.unlink(p)
+                except OSError:
+                    pass
+
+
 def run_group(repo_dir, harnesses, unwind, unwindset=None, stubbing=False, timeout_s=300, jobs=16,
-              log_path=None, mem_gb=12, extra_args=None, target_dir=None):
+              log_path=None, mem_gb=14, extra_args=None, target_dir=None):
     """Run one cargo-kani invocation. `harnesses` = list of harness path suffixes (exact match on
     the fully qualified name is done afterwards). Returns (results_by_pretty_name, meta)."""
     out_json = os.path.join(os.path.dirname(repo_dir), f"kani-{int(time.time()*1000)}.json")
     cmd = ["cargo", "kani", "--target-dir", target_dir or KANI_TARGET]
     for h in harnesses:
         cmd += ["--harness", h]
-    cmd += ["--default-unwind", str(unwind), "-j", str(max(1, min(jobs, len(harnesses)))),
+    if not unwindset:
+        cmd += ["--default-unwind", str(unwind)]
+    cmd += ["-j", str(max(1, min(jobs, len(harnesses)))),
             "--output-format", "terse", "-Z", "unstable-options",
             "--harness-timeout", f"{int(timeout_s)}s", "--export-json", out_json]
     if stubbing:
@@ -34,14 +59,17 @@ def run_group(repo_dir, harnesses, unwind, unwindset=None, stubbing=False, timeo
     if extra_args:
         cmd += list(extra_args)
     if unwindset:
-        cmd += ["--cbmc-args", "--unwindset", ",".join(f"{k}:{v}" for k, v in unwindset.items())]
-    shell = f"ulimit -v {int(mem_gb * 1024 * 1024)}; exec " + " ".join(_q(c) for c in cmd)
+        # (cargo-kani refuses --default-unwind together with unwind flags in --cbmc-args)
+        cmd += ["--cbmc-args", "--unwind", str(unwind), "--unwindset", ",".join(f"{k}:{v}" for k, v in unwindset.items())]
+    shell = "exec " + " ".join(_q(c) for c in cmd)
     t0 = time.time()
     # build + all harnesses; generous outer cap: build 10 min + harness timeouts in waves
     waves = (len(harnesses) + max(1, min(jobs, len(harnesses))) - 1) // max(1, min(jobs, len(harnesses)))
     outer = 900 + waves * (timeout_s + 60)
+    env = _env()
+    env["VERIF_CBMC_MEM_KB"] = str(int(mem_gb * 1024 * 1024))
     try:
-        p = subprocess.run(["bash", "-c", shell], cwd=repo_dir, env=_env(), stdout=subprocess.PIPE,
+        p = subprocess.run(["bash", "-c", shell], cwd=repo_dir, env=env, stdout=subprocess.PIPE,
                            stderr=subprocess.STDOUT, text=True, timeout=outer)
         out = p.stdout
         rc = p.returncode
